@@ -364,7 +364,7 @@ fn corpus_cases() -> Vec<Case> {
             if i > 0 {
                 b.g.em.tok(",");
             }
-            args.push(('i', b.sig(n)));
+            args.push(('i', None, b.sig(n)));
         }
         let e = b.g.em.tok(")");
         b.g.em.tok(";");
@@ -385,7 +385,7 @@ fn corpus_cases() -> Vec<Case> {
                 if i > 0 {
                     b.g.em.tok(",");
                 }
-                args.push(('i', b.sig(n)));
+                args.push(('i', None, b.sig(n)));
             }
             let e = b.g.em.tok(")");
             b.g.em.tok(";");
@@ -407,7 +407,7 @@ fn corpus_cases() -> Vec<Case> {
         b.g.outs.push((sig_id("ob1").unwrap(), a1.sp(), n_reads));
         let e = b.g.em.tok(")");
         b.g.em.tok(";");
-        let body = vec![S::Call((p.sp().0, e), p, vec![('i', a0), ('o', a1)])];
+        let body = vec![S::Call((p.sp().0, e), p, vec![('i', None, a0), ('o', None, a1)])];
         v.push(b.finish(id, "FOc", kw, listed, names, body));
     }
     {
@@ -454,6 +454,122 @@ fn corpus_cases() -> Vec<Case> {
         b.g.em.toks("end if ;");
         let c = E::Call((f.sp().0, e), Box::new(f), vec![a]);
         v.push(b.finish("corpus.heuristic", "FHc", kw, listed, names, vec![S::If(vec![(c, vec![s])], Vec::new())]));
+    }
+    {
+        // F20 with named association in reversed order and an indexed out actual:
+        //   po ( o => ov0 ( i0 ) , a => b0 ) ;   ov0 is written, i0 and b0 are read
+        let mut b = B::new();
+        let (kw, listed, names) = b.header(&["b1", "ov0"]);
+        b.g.em.nl(4);
+        let p = b.g.name("po", ID_PO);
+        b.g.em.tok("(");
+        let ft = b.g.em.tok("o");
+        b.g.em.tok("=>");
+        let w = b.g.written("ov0");
+        b.g.em.tok("(");
+        let i = b.sig("i0");
+        let e1 = b.g.em.tok(")");
+        let a_o = E::Call((w.sp().0, e1), Box::new(w), vec![i]);
+        b.g.em.tok(",");
+        let fa = b.g.em.tok("a");
+        b.g.em.tok("=>");
+        let a_a = b.sig("b0");
+        let e = b.g.em.tok(")");
+        b.g.em.tok(";");
+        let body = vec![S::Call(
+            (p.sp().0, e),
+            p,
+            vec![('o', Some(E::Desig((ft, ft), Some(417))), a_o), ('i', Some(E::Desig((fa, fa), Some(416))), a_a)],
+        )];
+        v.push(b.finish("corpus.F20c", "FOc", kw, listed, names, body));
+    }
+    {
+        // out-mode actual that is a slice of an element: pov ( b0 , om0 ( i0 ) ( i1 downto 0 ) ) ;
+        // the slice range of a WRITTEN name is read (analyze_written_name), om0 is not
+        let mut b = B::new();
+        let (kw, listed, names) = b.header(&["b0", "om0"]);
+        b.g.em.nl(4);
+        let p = b.g.name("pov", ID_POV);
+        b.g.em.tok("(");
+        let a0 = b.sig("b0");
+        b.g.em.tok(",");
+        let w = b.g.written("om0");
+        b.g.em.tok("(");
+        let i = b.sig("i0");
+        let e1 = b.g.em.tok(")");
+        let inner = E::Call((w.sp().0, e1), Box::new(w), vec![i]);
+        b.g.em.tok("(");
+        let hi = b.sig("i1");
+        b.g.em.tok("downto");
+        let lo = b.g.lit("0");
+        let e2 = b.g.em.tok(")");
+        let a1 = E::Slice((inner.sp().0, e2), Box::new(inner), vec![hi, lo]);
+        let e = b.g.em.tok(")");
+        b.g.em.tok(";");
+        let body = vec![S::Call((p.sp().0, e), p, vec![('i', None, a0), ('o', None, a1)])];
+        v.push(b.finish("corpus.F20d", "FOc", kw, listed, names, body));
+    }
+    // sensitivity-list entries with two and three levels of indexing / slicing (seeded change C20-m6)
+    for (id, entry, read_it) in [("corpus.M1", 0, true), ("corpus.M2", 1, false), ("corpus.M3", 2, true), ("corpus.M4", 3, false)] {
+        let mut b = B::new();
+        let g = &mut b.g;
+        let k = g.em.tok("process");
+        g.em.tok("(");
+        let sig = if entry == 2 { "v0" } else { "m0" };
+        let sid = sig_id(sig).unwrap();
+        let p = g.name(sig, sid);
+        let mut e = p;
+        let levels: &[&str] = match entry {
+            0 => &["i", "i"],      // m0 ( 0 ) ( 1 )
+            1 => &["i", "s"],      // m0 ( 1 ) ( 3 downto 0 )
+            2 => &["s", "i"],      // v0 ( 3 downto 0 ) ( 2 )
+            _ => &["i", "s", "i"], // m0 ( 2 ) ( 3 downto 0 ) ( 1 )
+        };
+        for l in levels {
+            g.em.tok("(");
+            if *l == "i" {
+                let i = g.lit("1");
+                let bb = g.em.tok(")");
+                e = E::Call((e.sp().0, bb), Box::new(e), vec![i]);
+            } else {
+                let a = g.lit("3");
+                g.em.tok("downto");
+                let c = g.lit("0");
+                let bb = g.em.tok(")");
+                e = E::Slice((e.sp().0, bb), Box::new(e), vec![a, c]);
+            }
+        }
+        g.em.tok(",");
+        let e2 = g.name("b1", sig_id("b1").unwrap());
+        g.em.tok(")");
+        let listed = vec![(sid, e.sp()), (sig_id("b1").unwrap(), e2.sp())];
+        let names = vec![e, e2];
+        g.em.nl(0);
+        g.em.lines.last_mut().unwrap().push_str(PROC_DECLS);
+        g.em.ntok += PROC_DECLS.split_whitespace().count() as u32;
+        g.em.nl(2);
+        g.em.tok("begin");
+        let mut body = vec![b.assign("ob0", "b0")];
+        if read_it {
+            // ob1 <= <sig> ( i0 ) [( 2 )] ;
+            b.g.em.nl(4);
+            let t = b.tgt("ob1");
+            b.g.em.tok("<=");
+            let r = b.sig(sig);
+            b.g.em.tok("(");
+            let i = b.sig("i0");
+            let bb = b.g.em.tok(")");
+            let mut val = E::Call((r.sp().0, bb), Box::new(r), vec![i]);
+            if sig == "m0" {
+                b.g.em.tok("(");
+                let j = b.g.lit("2");
+                let bb2 = b.g.em.tok(")");
+                val = E::Call((val.sp().0, bb2), Box::new(val), vec![j]);
+            }
+            b.g.em.tok(";");
+            body.push(S::SigAssign(t, Rhs::Simple(Some(vec![(val, None)]))));
+        }
+        v.push(b.finish(id, "Fc", (k, k), listed, names, body));
     }
     // clocked shapes: the edge test in every operand position `is_likely_clocked` descends into
     v.push(B::clocked_case("corpus.K1", false, &|b| {
